@@ -95,4 +95,18 @@ prop('C06',
                   'default_identifiers(n) = [1*1, ..., n*1] and Identifier::try_from(u16) = n*1 (assumed contracts; Kani group ident, complete over u16 on toy fields)',
                   'an altered identifier is rejected unless poly(a,i\') = poly(a,i): generic-position statement, not decided'],
      design_ref='DESIGN.md section 4 C06')
+prop('C11',
+     level_text='For every ciphersuite, group, helper list and participant identifier: Verus proves the real text of repair_share_part1 / '
+                'compute_last_random_value / repair_share_part2 / repair_share_part3 (and compute_lagrange_coefficient at a general point) against '
+                'contracts stating the exact refusal per guard (fewer than t helpers, caller not among the helpers, duplicate helpers, package without '
+                'threshold) and the whole result (the first |H|-1 ascending helpers receive the fresh draws, the last the correcting value; sigma = sum '
+                'of deltas; key package = (id, sum of sigmas, G*that, group key, threshold)); the theorem thm_repair composes them with the natively '
+                'proved Lagrange interpolation at a general point and a Fubini lemma: the repaired share equals f(participant) for any >= t distinct '
+                'helpers and any participant identifier (existing or new).',
+     level_note='Assumed: generate_coefficients contract (RNG draws; Kani-backed, bounded), the outlined `helpers.iter().copied().zip(..).collect()` and '
+                '`helpers.iter().cloned().collect()` idioms (statements about std; the zip closure `|v| Delta::new(*v)` sits inside the outlined text, so a '
+                'change there is reported as undecided, not as a violation), BTreeSet::last = greatest element, T7 identifier order.',
+     assumptions=['outlined std idioms in repairable.rs: zip+collect into BTreeMap pairs the k-th smallest helper with the k-th value; cloned+collect = set of elements',
+                  'the verifying share equals the public package entry when the participant existed: follows from f(participant) and C06/C07 consistency of the package, not re-proved here'],
+     design_ref='DESIGN.md section 4 C11')
 prop('CDEV', level_text='dev', level_note='dev', claimed=False)
